@@ -109,7 +109,7 @@ impl Property for C01 {
         tier.pick(10_000, 200_000)
     }
     fn strategy(_tier: Tier) -> BoxedStrategy<Spec> {
-        let cfg_cheap = Cfg { rules: RuleMode::PermissiveWithMatch, ..Cfg::basic() };
+        let cfg_cheap = Cfg { rules: RuleMode::PermissiveWithMatch, big_owners: true, ..Cfg::basic() };
         let cfg_mixed = Cfg { cheap: false, max_steps: 2, rules: RuleMode::PermissiveWithMatch, ..Cfg::basic() };
         (
             prop_oneof![4 => valid_world(cfg_cheap), 1 => valid_world(cfg_mixed)],
@@ -141,7 +141,7 @@ impl Property for C01 {
     fn check(spec: &Spec, env: &mut Env) -> Outcome {
         let mut o = Outcome::new();
         let n = spec.owners.len();
-        let mut signers: Vec<KeySpec> = spec.owners.iter().enumerate().filter(|(i, _)| spec.signed_mask >> i & 1 == 1).map(|(_, k)| k.clone()).collect();
+        let mut signers: Vec<KeySpec> = spec.owners.iter().enumerate().filter(|(i, _)| spec.signed_mask >> (i % 8) & 1 == 1).map(|(_, k)| k.clone()).collect();
         if signers.is_empty() {
             signers.push(spec.owners[0].clone());
         }
